@@ -4,6 +4,7 @@
 -/
 import Driver.Codec
 import SlacModel.Display
+import SlacModel.Json
 open Slac Codec
 
 def ordStr : Ordering → String | .lt => "-1" | .eq => "0" | .gt => "1"
@@ -53,11 +54,74 @@ def runEval (r : List String) : Option String := do
   let s := spec env e
   pure s!"{showRes m.1} ; {showTrace m.2} | {showRes s.1.toExcept} ; {showTrace s.2}"
 
+/-- `env <ops>`: one answer per op, joined by " , " (mirror of harness run_env) -/
+def showFn (f : Fn Float) (behName : String) : String :=
+  let a := match f.arity with | .polyadic r o => s!"P{r}+{o}" | .variadic => "V" | .none => "N"
+  s!"{hex f.name}:{a}:{if f.pure then 1 else 0}:{behName}"
+
+/-- the driver keeps the behaviour name next to the function object (the model's `tag` identifies it) -/
+def behOfTag (tag : Nat) : String :=
+  (["first", "cnt", "fail", "arr", "k0", "k1", "k2", "k3", "last", "ifthen"].find? (fun b => behTag b == tag)).getD "?"
+
+def insertSorted (x : String) : List String → List String
+  | [] => [x]
+  | y :: ys => if x ≤ y then x :: y :: ys else y :: insertSorted x ys
+
+partial def runEnvOps (s : StaticEnv Float) (r : List String) (acc : List String) : Option (List String) :=
+  match r with
+  | [] => some acc.reverse
+  | "av" :: n :: r => do let (v, r) ← parseVal r; runEnvOps (s.addVariable fold (unhex n) v) r ("-" :: acc)
+  | "rv" :: n :: r =>
+    let (s', o) := s.removeVariable fold (unhex n)
+    runEnvOps s' r ((match o with | some v => "some " ++ showVal v | none => "none") :: acc)
+  | "cv" :: r => runEnvOps s.clearVariables r ("-" :: acc)
+  | "af" :: r => do let (d, r) ← parseFnDesc r; let f ← mkFn noStdlib d; runEnvOps (s.addFunction fold f) r ("-" :: acc)
+  | "afs" :: k :: r => do
+    let (ds, r) ← parseN parseFnDesc k.toNat! r []
+    let fs ← ds.mapM (mkFn noStdlib)
+    runEnvOps (s.addFunctions fold fs) r ("-" :: acc)
+  | "rf" :: n :: r =>
+    let (s', o) := s.removeFunction fold (unhex n)
+    runEnvOps s' r ((match o with | some f => "some " ++ showFn f (behOfTag f.tag) | none => "none") :: acc)
+  | "gv" :: n :: r => runEnvOps s r ((match s.getVariable fold (unhex n) with | some v => "some " ++ showVal v | none => "none") :: acc)
+  | "ve" :: n :: r => runEnvOps s r (tf (s.variableExists fold (unhex n)) :: acc)
+  | "cl" :: n :: k :: r => do let (args, r) ← parseN parseVal k.toNat! r []; runEnvOps s r (showNRes (s.call fold (unhex n) args) :: acc)
+  | "fe" :: n :: k :: r => runEnvOps s r (showFnRes (s.functionExists fold (unhex n) k.toNat!) :: acc)
+  | "lf" :: r =>
+    let l := (s.listFunctions.map fun f => showFn f (behOfTag f.tag)).foldl (fun a x => insertSorted x a) []
+    runEnvOps s r (("[" ++ String.intercalate " " l ++ "]") :: acc)
+  | _ => none
+
+def runEnv (r : List String) : Option String := (runEnvOps StaticEnv.empty r []).map (String.intercalate " , ")
+
+def jnFloat : JsonNum Float := ⟨F64.isFinite, F64.ofInt⟩
+
+partial def canonJson : Json Float → String
+  | .null => "null"
+  | .bool b => toString b
+  | .num x => "F" ++ natToHex x.toBits.toNat 16
+  | .int i => s!"I{i}"
+  | .str s => "\"" ++ hex s ++ "\""
+  | .arr xs => "[" ++ String.intercalate "," (xs.map canonJson) ++ "]"
+  | .obj fs =>
+    let kv := (fs.map fun (k, v) => String.ofList k ++ ":" ++ canonJson v).foldl (fun a x => insertSorted x a) []
+    "{" ++ String.intercalate "," kv ++ "}"
+
+def runJson (r : List String) : Option String := do
+  let (e, _) ← parseExpr r
+  let j := Json.ofExpr jnFloat e
+  let rt := match Json.toExpr jnFloat j with
+    | some e' => if showExpr e' == showExpr e then "same" else "differs"
+    | none => "err"
+  pure s!"{canonJson j} ; {rt} ; {rt}"
+
 def step (line : String) : String :=
   let r := match (line.trimAscii.toString.splitOn " ").filter (· ≠ "") with
     | "num" :: r => runNum r
     | "cmp" :: r => runCmp r
     | "eval" :: r => runEval r
+    | "env" :: r => runEnv r
+    | "json" :: r => runJson r
     | _ => none
   r.getD "bad"
 
